@@ -1,3 +1,9 @@
 #!/bin/sh
-# extra offline setup steps (model-vs-kernel differential of the strict netfilter fake etc.); must never fail the setup
+# Extra offline setup: cross-check the strict iptables fake (harness/nf) against the real iptables-restore in a private network
+# namespace. Informational: never fails the setup (skipped where namespaces/iptables are unavailable).
+export GOFLAGS=-mod=mod GOPROXY=off GOSUMDB=off GOTOOLCHAIN=local
+mkdir -p /verif/evidence
+cd /verif/harness && go test -tags verif ./nf -run TestKernelDiff -rapid.checks=150 -rapid.seed=1 -count=1 > /tmp/nf_kernel_diff.$$ 2>&1
+echo "nf fake vs kernel differential: exit $?" 
+tail -3 /tmp/nf_kernel_diff.$$; rm -f /tmp/nf_kernel_diff.$$
 exit 0
